@@ -13,7 +13,7 @@ class Inconclusive(Exception):
 
 
 class RadarSession:
-    def __init__(self, binpath, plan, lat=52.0, lon=4.0, opts=(), rows=50, cols=150, scratch=None, listen=True, accept_timeout=25.0):
+    def __init__(self, binpath, plan, lat=52.0, lon=4.0, opts=(), rows=50, cols=150, scratch=None, listen=True, accept_timeout=25.0, env_extra=None):
         self.scratch = tempfile.mkdtemp(prefix="radar-", dir=scratch)
         self.srv = procs.FeedServer(plan, accept_timeout=accept_timeout)
         if listen:
@@ -33,6 +33,8 @@ class RadarSession:
         tz = [None, "UTC0", "CET-1CEST", "LMT-0:19:32", "IST-5:30", "XXX+12:34:56", "NZDT-13:45", ":/nonexistent/zone", "AAA+24"][RadarSession.counter % 9]
         if tz is not None:
             env["TZ"] = tz
+        if env_extra:
+            env.update(env_extra)
         env = env or None
         self.p = procs.PtyProc(argv, rows=rows, cols=cols, env=env, cwd=self.scratch)
         self.events = []
@@ -145,12 +147,12 @@ class RadarSession:
 class Dump1090Session:
     """The `1090` client with stdout/stderr on pipes."""
 
-    def __init__(self, binpath, plan, extra_opts=(), scratch=None):
+    def __init__(self, binpath, plan, extra_opts=(), scratch=None, env_extra=None):
         self.srv = procs.FeedServer(plan)
         self.srv.start()
         self.out = bytearray()
         self.err = bytearray()
-        self.p = subprocess.Popen([os.path.join(binpath, "1090"), "--host", "127.0.0.1", "--port", str(self.srv.port)] + list(extra_opts), stdin=subprocess.DEVNULL, stdout=subprocess.PIPE, stderr=subprocess.PIPE)
+        self.p = subprocess.Popen([os.path.join(binpath, "1090"), "--host", "127.0.0.1", "--port", str(self.srv.port)] + list(extra_opts), stdin=subprocess.DEVNULL, stdout=subprocess.PIPE, stderr=subprocess.PIPE, env=dict(os.environ, **(env_extra or {})))
         self.t_last = time.monotonic()
         self.threads = [threading.Thread(target=self._rd, args=(self.p.stdout, self.out), daemon=True), threading.Thread(target=self._rd, args=(self.p.stderr, self.err), daemon=True)]
         for t in self.threads:
